@@ -190,4 +190,58 @@ theorem mbsnrtowcs_stop (mbr : Bytes → MbRes) (src : Bytes) (srclen : Nat) (d 
   cases st <;> simp [Nat.min_eq_left hs]
 
 
+/-! ## the conversion state -/
+
+theorem mbsLoopSt_initial (mbr : Bytes → MbRes) (hasDst : Bool) (dstlen : Nat) :
+    ∀ (f : Nat) (s : Bytes) (off count : Nat) (w : List Nat),
+      (mbsLoopSt mbr hasDst dstlen f [] s off count w).1 = mbsLoop mbr hasDst dstlen f s off count w := by
+  intro f
+  induction f with
+  | zero => intro s off count w; simp [mbsLoopSt, mbsLoop]
+  | succ f ih =>
+    intro s off count w
+    unfold mbsLoopSt mbsLoop
+    by_cases h1 : s = []
+    · simp [h1]
+    · by_cases h2 : hasDst = true ∧ count ≥ dstlen
+      · simp [h1, h2]
+      · simp only [h1, h2, if_false, List.nil_append, List.length_nil, Nat.sub_zero]
+        cases hm : mbr s with
+        | char len wc => simp only; exact ih _ _ _ _
+        | nul => rfl
+        | invalid => rfl
+        | incomplete => rfl
+
+/-- started in the INITIAL state, the stateful `mbsnrtowcs` is the single-call function of the
+    other theorems -/
+theorem mbsnrtowcsSt_initial (mbr : Bytes → MbRes) (src : Bytes) (srclen : Nat) (dst : Option (List Nat)) :
+    (mbsnrtowcsSt mbr [] src srclen dst).1 = mbsnrtowcs mbr src srclen dst := by
+  cases dst with
+  | none => simp only [mbsnrtowcsSt, mbsnrtowcs, mbsLoopSt_initial]
+  | some d => simp only [mbsnrtowcsSt, mbsnrtowcs, mbsLoopSt_initial]
+
+/-- a pending partial character is never skipped: whatever the first byte of the new input is (an
+    ASCII byte too), the first step is `mbr` on `pend ++ s`; when that is invalid the call fails
+    with (size_t)-1, `*src` unchanged, nothing stored and the state kept -/
+theorem mbsnrtowcsSt_pending_invalid (mbr : Bytes → MbRes) (pend src : Bytes) (srclen : Nat) (d : List Nat)
+    (hs : src.take srclen ≠ []) (hd : 0 < d.length) (hm : mbr (pend ++ src.take srclen) = .invalid) :
+    mbsnrtowcsSt mbr pend src srclen (some d) = (⟨none, some 0, d⟩, pend) := by
+  unfold mbsnrtowcsSt
+  simp only
+  unfold mbsLoopSt
+  have h2 : ¬ (0 ≥ d.length) := by omega
+  simp [hs, h2, hm]
+
+/-- … and when `pend ++ s` starts with a complete character of `len` bytes, exactly `len - |pend|` bytes of
+    the new input are consumed for it and the state is initial again for the rest -/
+theorem mbsLoopSt_pending_char (mbr : Bytes → MbRes) (hasDst : Bool) (dstlen f : Nat) (pend s : Bytes)
+    (off count len wc : Nat) (w : List Nat) (hs : s ≠ []) (hroom : ¬ (hasDst = true ∧ count ≥ dstlen))
+    (hm : mbr (pend ++ s) = .char len wc) :
+    mbsLoopSt mbr hasDst dstlen (f + 1) pend s off count w =
+      mbsLoopSt mbr hasDst dstlen f [] (s.drop (len - pend.length)) (off + (len - pend.length)) (count + 1)
+        (if hasDst then wc :: w else w) := by
+  rw [mbsLoopSt]
+  simp only [hs, hroom, if_false, hm]
+
+
 end UsualProofs.C14
